@@ -211,7 +211,7 @@ def r3_r5_relations(run, F):
         fn = spec["fn"]
         b = F.body(fn)
         m = hirq.find_match(b, min_arms=2)
-        got = [[list(k), g, o] for k, g, o in hirq.nested_table(m)]
+        got = [[list(k), g, o] for k, g, o in hirq.nested_table(m, (), hirq.canon_params(b))]
         want = spec["rows"]
         gotset = set(json.dumps(r) for r in got)
         wantset = set(json.dumps(r) for r in want)
